@@ -3,7 +3,7 @@
 From Coq Require Import String Permutation.
 From TT Require Import Lib.Base Lib.Sort Model.Utf8 Model.MimeCt Model.Content Spec.C16 Corr.C16 Proof.Utf8Sweep Proof.C16.
 
-(* The model meets the whole statement on every input of the nine scenario kinds: every text over Unicode scalar
+(* The model meets the whole statement on every input of the ten scenario kinds: every text over Unicode scalar
    values, every chunk list, every byte string under all its splits, every source content / position / seek offset
    (any integer) / origin / chunk_size >= 1 / buffer_now, every mutable list and mutation sequence, every pair of contents, every content type of the modelled
    domain - outside the known finding F16 (full statement: the same without the finding_F16 hypothesis; it is false,
